@@ -109,6 +109,18 @@ def check_state(job):
         out.append((["C08"], "value", "convolve differs from the convolution definition, max |diff| %.3g" % float(np.abs(y - exp).max())))
     if not (np.array_equal(data, d0) and np.array_equal(filt, f0)):
         out.append((["C02", "C08"], "input_mutated", "convolve modified an argument"))
+    # data and filter in other memory layouts (Fortran order, strided views)
+    for (lab, dv), (_, fv) in zip(core.layouts(data) or [("C", data)] * 2, core.layouts(filt) or [("C", filt)] * 2):
+        dv0, fv0 = dv.copy(), fv.copy()
+        try:
+            yv = sp.convolve(dv, fv, **kw)
+        except Exception as e:
+            out.append((["C08"], "exception", "convolve raised %r for %s arguments" % (e, lab)))
+            continue
+        if tuple(yv.shape) != oshape or not np.array_equal(yv, exp):
+            out.append((["C08"], "value", "convolve with %s arguments differs from the convolution definition" % lab))
+        if not (np.array_equal(dv, dv0) and np.array_equal(fv, fv0)):
+            out.append((["C02", "C08"], "input_mutated", "convolve modified a %s argument" % lab))
     # real data too
     yr = sp.convolve(data.real.copy(), filt.real.copy(), **kw)
     expr = np.zeros((B, co) + p)
